@@ -76,37 +76,61 @@ def build(tier):
     vf.add(PRELUDE)
     it = src.item("impl TyGenContext<'_,'tcx>::gen_result_ty", "fn")
     cls = it.get("closures", [])
-    if len(cls) != 2:
-        raise Undecided("anchor-lost", f"gen_result_ty: expected 2 closures (the two `.filter(|t| ..)`), found {len(cls)}")
+    if not (1 <= len(cls) <= 4):
+        raise Undecided("anchor-lost", f"gen_result_ty: expected the `.filter(..)` predicate closure(s), found {len(cls)} closures")
     p = Piece(src, it)
+    named = {}      # local name bound to a hoisted closure -> k
+    literal = []    # (c0, c1, k) closures written directly as `.filter(|t| ..)` argument
     for k, cl in enumerate(cls):
         c0, c1 = cl["start"], cl["end"]
         ctext = src.slice(c0, c1)
-        m = re.match(r"\|\s*(\w+)\s*\|\s*\{", ctext)
+        m = re.match(r"\|\s*(\w+)\s*(?::\s*&&(?:hir::)?(?:OutType|Type))?\s*\|\s*\{", ctext)
         if not m:
-            raise Undecided("anchor-lost", "gen_result_ty: closure is no longer `|t| { .. }`")
-        st = [s for s in it["stmts"] if s[0] <= c0 and c1 <= s[1]]
+            raise Undecided("anchor-lost", "gen_result_ty: a closure is no longer `|t| { .. }` / `|t: &&hir::OutType| { .. }`")
+        pn = m.group(1)
+        st = [x for x in it["stmts"] if x[0] <= c0 and c1 <= x[1]]
         if len(st) != 1:
             raise Undecided("anchor-lost", "closure statement not found")
         sa, sb = st[0]
-        mm = re.match(r"let\s+(\w+)\s*=\s*(\w+)\s*\.filter\(\s*$", src.slice(sa, c0))
-        if not mm or not re.match(r"\s*\)\s*;\s*$", src.slice(c1, sb)):
-            raise Undecided("anchor-lost", "statement is not `let X = Y.filter(|t| {..});`")
-        lhs, rhs, pn = mm.group(1), mm.group(2), m.group(1)
-        # E18 + E10: closure (captures only `self`) hoisted to a method; Option::filter unfolded to its definition
+        # E18: closure (captures only `self`) hoisted to a method
         body_open = c0 + ctext.index("{")
-        frag = {"start": body_open, "after_attrs": body_open, "end": c1, "path": it["path"] + f"#closure {k} (filter predicate of {rhs})", "loops": []}
+        frag = {"start": body_open, "after_attrs": body_open, "end": c1, "path": it["path"] + f"#closure {k} (filter predicate)", "loops": []}
         pc = Piece(src, frag)
         pc.fn("E5", rule_panics, why="unreachable! arm becomes an obligation")
-        vf.add(f"    // E18: the predicate closure of `{rhs}.filter(..)` (captures only `self`) as a method\n"
-               f"    fn __keep_{k}(&self, {pn}: &&Type) -> (keep: bool)\n        ensures {CANARY} keep == !zst(**{pn}, self.tcx),\n    ",
-               origin={"file": F, "item": frag["path"], "line": src.line_of(c0), "end_line": src.line_of(c1)})
-        vf.add(pc.render() + "\n", origin={"file": F, "item": frag["path"], "line": src.line_of(c0), "end_line": src.line_of(c1)}, edits=pc.log)
+        org = {"file": F, "item": frag["path"], "line": src.line_of(c0), "end_line": src.line_of(c1)}
+        vf.add(f"    // E18: predicate closure #{k} of gen_result_ty (captures only `self`) as a method\n"
+               f"    fn __keep_{k}(&self, {pn}: &&Type) -> (keep: bool)\n        ensures {CANARY} keep == !zst(**{pn}, self.tcx),\n    ", origin=org)
+        vf.add(pc.render() + "\n", origin=org, edits=pc.log)
         vf.functions.append({"path": frag["path"], "file": F, "line": src.line_of(c0), "end_line": src.line_of(c1), "engine": "verus",
                              "mode": "verus (closure hoisted, E18)", "bound": "none"})
         vf.expected.append(f"__keep_{k}")
-        p.replace("E10", sa, sb, f"let {lhs} = match {rhs} {{ Some(t__) => if self.__keep_{k}(&t__) {{ Some(t__) }} else {{ None }}, None => None }};",
-                  "Option::filter(pred) unfolded to its definition; the predicate closure is the hoisted method above")
+        mm = re.fullmatch(r"let\s+(\w+)\s*=\s*", src.slice(sa, c0))
+        if mm and src.slice(c1, sb).strip() == ";":
+            named[mm.group(1)] = k
+            p.replace("E18", sa, sb, "", "closure definition hoisted (see method above)")
+        elif re.search(r"\.filter\(\s*$", src.slice(sa, c0)):
+            p.replace("E18", c0, c1, f"__KEEP_{k}__", "closure literal hoisted (see method above)")
+        else:
+            raise Undecided("anchor-lost", "a closure of gen_result_ty is neither bound by `let NAME = |..| {..};` nor a `.filter(..)` argument")
+
+    def unfold_filters(text):
+        # E10: `X.filter(P)` (P a hoisted predicate) unfolded to the definition of Option::filter
+        out = []
+        pat = re.compile(r"(\w+)\s*\.filter\(\s*(\w+)\s*\)")
+        def rep(mo):
+            recv, arg = mo.group(1), mo.group(2)
+            mk = re.fullmatch(r"__KEEP_(\d+)__", arg)
+            k = int(mk.group(1)) if mk else named.get(arg)
+            if k is None:
+                raise Undecided("unsupported", f"gen_result_ty: `.filter({arg})` with a predicate that is not a closure of this function")
+            new = f"(match {recv} {{ Some(t__) => if self.__keep_{k}(&t__) {{ Some(t__) }} else {{ None }}, None => None }})"
+            out.append((mo.group(0), new))
+            return new
+        t2 = pat.sub(rep, text)
+        if not out:
+            raise Undecided("edit-mismatch", "gen_result_ty: no `.filter(<predicate>)` left to unfold")
+        return t2, out
+    p.fn("E10", unfold_filters, why="Option::filter(pred) unfolded to its definition; pred is the hoisted method")
     p.contract(CONTRACT, ret_name="r")
     p.sub("E6t", r"\(r: String\)", "(r: CText)", count=1, why="generated C text carried as what it declares")
     p.sub("E6t", r'format!\("\{ok_name\} ok;"\)', "CText::ok_member(ok_name)", count=1, why="`T ok;` member")
@@ -115,14 +139,14 @@ def build(tier):
     p.sub("E6t", r'format!\("typedef struct \{fn_name\}_result \{\{\{union_def\} bool is_ok;\}\} \{fn_name\}_result;\\n\{fn_name\}_result"\)', "CText::result_struct(union_def)", count=1,
           why="`typedef struct f_result {<union> bool is_ok;} f_result`")
     p.sub("E6t", r'"".into\(\)', "CText::empty()", count=3, why="empty text")
-    p.sub("E12", r"&hir::OutType", "&Type", count=2, why="path re-rooted")
+    p.sub("E12", r"&hir::OutType", "&Type", count="+", why="path re-rooted")
     vf.add_piece(p, expected="gen_result_ty")
     vf.add("}\n")
     vf.add(vhelp.FOOTER)
     return vf
 
 
-CANARY_FUNCTIONS = ["__keep_0", "__keep_1", "gen_result_ty"]
+CANARY_FUNCTIONS = ["__keep_0", "gen_result_ty"]
 ASSUMPTIONS = [
     "E18/E10: the two `.filter(|t| ..)` predicate closures (capturing only `self`) are verified as methods; Option::filter is unfolded to its definition",
     "E6t: the five text-producing expressions are replaced by tagged abstract constructors keyed on their template literal (`{ok_name} ok;`, `{err_name} err;`, `union {..};`, `typedef struct .._result {.. bool is_ok;}`, empty); characters dropped, declared members kept",
